@@ -293,6 +293,10 @@ class Engine:
         for m in modules:
             for name, f in m.functions.items():
                 self.functions[name] = f
+        for m in modules:
+            for al, target in m.aliases.items():
+                if target in self.functions:
+                    self.functions[al] = self.functions[target]
         names = set(self.functions)
         for m in modules:
             names |= set(m.declares)
@@ -1474,6 +1478,9 @@ class Engine:
             st.frames.append(nf)
             self.fn_instrs.setdefault(name, 0)
             return None
+        for m_ in self.modules:
+            if name in m_.bad_functions:
+                raise Unsupported('call to %s which is outside the supported IR subset: %s' % (name, m_.bad_functions[name]))
         # external: model
         import models
         r = models.call_external(self, st, fr, ins, name, args)
